@@ -90,7 +90,7 @@ static std::vector<Entry> table()
 	static const double EP[] = {-0.999, -0.5, 0.0, 1e-8, 0.3, 0.9, 0.999999};
 	add("Inv_Erf", "C06 C07 C17", 7, [](int k) { return V{Inv_Erf(EP[k])}; });
 	// ---------------------------------------------------------------- scalars and harmonics (C17)
-	static const double DX[] = {-3.0, -1.3, -0.2, -0.05, 0.0, 0.1, 0.19, 0.21, 0.4, 1.2, 5.0, 12.0};
+	static const double DX[] = {-3.0, -1.3, -0.21, -0.05, 0.0, 0.05, 0.19, 0.21, 0.4, 1.3, 3.0, 12.0};   // +-pairs: same magnitude, other sign
 	add("Dawson_Integral", "C17", 12, [](int k) { return V{Dawson_Integral(DX[k])}; });
 	add("Erfi", "C17", 12, [](int k) { return V{Erfi(DX[k])}; });
 	static const double RN[][2] = {{2.5, 1}, {-2.5, 1}, {123456.789, 3}, {-0.000123456, 2}, {0.0, 3}, {9.9995, 4}, {1e-300, 2}, {-19.1, 1}};
@@ -123,15 +123,17 @@ static std::vector<Entry> table()
 		return V{Likelihood_Poisson_Binned(s, o, b), Log_Likelihood_Poisson_Binned(s, o, b), Likelihood_Poisson_Binned(s, o), Log_Likelihood_Poisson_Binned(s, o)};
 	});
 	// ---------------------------------------------------------------- quadrature (C03, C12, C13)
-	static const unsigned GN[] = {1, 2, 3, 4, 5, 6, 7, 8, 30, 31, 40, 64, 65};
-	add("Compute_Gauss_Legendre_Roots_and_Weights", "C12 C13", 13, [](int k) {
+	// (order, interval): the same order on several intervals, several orders on the same interval, intervals of equal length elsewhere
+	static const double GI[][3] = {{1, -1, 1}, {2, -1, 1}, {3, -1, 1}, {4, -1, 1}, {7, -1, 1}, {8, -1, 1}, {30, -1, 1}, {31, -1, 1}, {6, 0, 1}, {6, 2, 3}, {6, 0, 2}, {30, 0, 1}, {30, 2, 3},
+								   {40, 0, 1}, {5, 0, 1}, {64, -3, 5}, {65, -3, 5}, {6, 1e-20, 3e-20}, {6, 1e6, 3e6}};
+	add("Compute_Gauss_Legendre_Roots_and_Weights", "C12 C13", 19, [](int k) {
 		V o;
-		for(auto& r : Compute_Gauss_Legendre_Roots_and_Weights(GN[k], -1.0 + 0.25 * (k % 3), 2.0))
+		for(auto& r : Compute_Gauss_Legendre_Roots_and_Weights((unsigned)GI[k][0], GI[k][1], GI[k][2]))
 			for(double x : r)
 				o.push_back(x);
 		return o;
 	});
-	add("Integrate_Gauss_Legendre(n)", "C12 C13", 13, [](int k) { return V{Integrate_Gauss_Legendre([](double x) { return std::exp(-x) * x * x; }, 0.25 * (k % 4), 3.0, GN[k])}; });
+	add("Integrate_Gauss_Legendre(n)", "C12 C13", 19, [](int k) { return V{Integrate_Gauss_Legendre([](double x) { return 1.0 / (1.0 + x * x); }, GI[k][1], GI[k][2], (unsigned)GI[k][0])}; });
 	static const char* ME[] = {"Trapezoidal", "Gauss-Legendre", "Gauss-Kronrod", "Tanh-Sinh", "Gauss-Legendre_2", "Adaptive-Simpson"};
 	static const int MP[] = {0, 5, 6, 31, 40, 3};
 	add("Integrate(method)", "C13 C12", 36, [](int k) {
@@ -139,6 +141,11 @@ static std::vector<Entry> table()
 		if(m == 0 && p > 20)
 			p = 6;
 		return V{Integrate([](double x) { return std::exp(-0.5 * x) * std::cos(x); }, -0.5 + 0.1 * (k % 5), 2.0 + 0.3 * (k % 3), std::string(ME[m]), p)};
+	});
+	add("Integrate(GL2, intervals)", "C13 C12", 8, [](int k) {
+		static const double IV[][3] = {{0, 1, 0}, {2, 3, 0}, {0, 1, 6}, {2, 3, 6}, {0, 2, 6}, {5, 6, 0}, {-1, 0, 40}, {0, 1, 40}};
+		return V{Integrate([](double x) { return 1.0 / (1.0 + x * x); }, IV[k][0], IV[k][1], "Gauss-Legendre_2", (int)IV[k][2]),
+				 Integrate([](double x) { return 1e-30 / (1.0 + x * x); }, IV[k][0], IV[k][1], "Adaptive-Simpson", 0)};
 	});
 	add("Integrate_2D(method)", "C13", 12, [](int k) {
 		int m = 1 + (k % 5), p = MP[(k / 5) % 3];
@@ -202,16 +209,20 @@ static std::vector<Entry> table()
 		return o;
 	});
 	// ---------------------------------------------------------------- helpers (C19) and units (C20)
-	add("Linear_Space/Log_Space", "C19", 6, [](int k) {
-		V o = Linear_Space(-1.0 + k, 3.5, 2 + 3 * k), l = Log_Space(1e-3 * (k + 1), 50.0, 1 + 2 * k);
-		o.insert(o.end(), l.begin(), l.end());
+	static const double SP[][3] = {{1, 100, 3}, {1, 100, 5}, {1, 1e4, 5}, {0.1, 100, 5}, {1, 100, 2}, {-3, 3, 7}, {-3, 3, 4}, {2, 2, 3}};
+	add("Linear_Space", "C19", 8, [](int k) { return Linear_Space(SP[k][0], SP[k][1], (unsigned)SP[k][2]); });
+	add("Log_Space", "C19", 5, [](int k) { return Log_Space(SP[k][0], SP[k][1], (unsigned)SP[k][2]); });
+	static const int RG[][3] = {{0, 9, 1}, {0, 9, 2}, {0, 10, 2}, {13, 6, 2}, {13, 6, 1}, {-39, -40, 2}, {-3, 9, 3}, {9, -3, 3}, {5, 5, 1}};
+	add("Range", "C19", 9, [](int k) {
+		V o;
+		for(int x : Range(RG[k][0], RG[k][1], RG[k][2]))
+			o.push_back(x);
 		return o;
 	});
-	add("Range/Workload_Distribution", "C19", 6, [](int k) {
+	static const unsigned WT[][2] = {{3, 17}, {3, 18}, {4, 17}, {16, 0}, {1, 5}, {128, 1024}, {7, 6}};
+	add("Workload_Distribution", "C19", 7, [](int k) {
 		V o;
-		for(int x : Range(-3 + k, 9 - 2 * k, 1 + k % 3))
-			o.push_back(x);
-		for(int x : Workload_Distribution(3 + k, 17 + 5 * k))
+		for(int x : Workload_Distribution(WT[k][0], WT[k][1]))
 			o.push_back(x);
 		return o;
 	});
@@ -225,13 +236,18 @@ static std::vector<Entry> table()
 		V wa = Weighted_Average(w);
 		return V{Arithmetic_Mean(d), Median(c), Variance(d), Standard_Deviation(d), wa[0], wa[1]};
 	});
-	add("In_Units", "C20", 6, [](int k) {
-		static const double Q[] = {1.0, 13.368461, 2.5e-7, 1e12, 0.333333333, 7.0};
-		V o		  = {In_Units(Q[k] * GeV, MeV), In_Units(Q[k] * meter, cm, true, 2 + k), In_Units(Q[k] * sec, year), Reduced_Mass(Q[k] * GeV, 2.0 * GeV)};
-		std::vector<std::vector<double>> me = {{Q[k] * kg, 2.0 * kg}, {3.0 * kg, Q[k] * gram}};
-		Matrix M  = In_Units(Matrix(me), gram, true, 1 + k);
+	add("In_Units", "C20", 12, [](int k) {
+		static const double Q[] = {1.0, 13.368461, 2.5e-7, 1e12, 0.333333333, 3.14159265};
+		double q  = Q[k % 6];
+		int dg	  = 1 + k / 2;
+		V o		  = {In_Units(q * GeV, MeV), In_Units(q * meter, cm, true, dg), In_Units(q * sec, year), Reduced_Mass(q * GeV, 2.0 * GeV),
+					 In_Units(q * GeV, GeV, true, dg), In_Units(q * GeV, GeV, false, dg), In_Units(q, 1.0, true, dg), In_Units(q * GeV * GeV, GeV * GeV, true, dg)};
+		std::vector<std::vector<double>> me = {{q * kg, 2.0 * kg}, {3.0 * kg, q * gram}};
+		Matrix M  = In_Units(Matrix(me), gram, true, dg);
 		V m		  = mv(M);
 		o.insert(o.end(), m.begin(), m.end());
+		V l = In_Units(std::vector<double> {q * km, 2 * q * km}, meter, true, dg);
+		o.insert(o.end(), l.begin(), l.end());
 		return o;
 	});
 	return T;
